@@ -70,6 +70,12 @@ def exactJson (flavor : Str) (A : Answers) (o : Opts) (lines : List Str) (items 
         | some (opt, n, v) => Json.arr #[Json.bool opt, ofStr n, ofStr v]
         | none => Json.null).toArray
     | _ => Json.null
+  -- inexact mode (setup type `build`): C17_inexact_actions_text
+  let envB : Cond.Env := ⟨flavor, [Str.ofString "build"]⟩
+  let directB := match TableParse.tableActions TableParse.repaired none envB (ExpandTable.expandedText items true) with
+    | .ok acts => Json.arr (acts.map actionJson).toArray
+    | .err _ => Json.str "error"
+    | .fuel => Json.str "fuel"
   let composed2 := match ExpandTable.expandParts A o lines with
     | .ok p => Json.arr ((C11Spec.denoteTable env (C11Spec.tableAbs (ExpandTable.tableOf none p))).map actionJson).toArray
     | .error _ => Json.null
@@ -79,7 +85,8 @@ def exactJson (flavor : Str) (A : Answers) (o : Opts) (lines : List Str) (items 
               -- C17_exact_actions_blocks: non-setup lines grouped into lines and `if` chains (checked grouping)
               ("blocksOK", ExpandTable.expandOK2 none A o lines), ("inert2", ExpandTable.expandInert2 none env A o lines),
               ("composed2", composed2),
-              ("pins", pins), ("direct", direct)]
+              ("pins", pins), ("direct", direct), ("direct_build", directB),
+              ("acts_build", Json.arr ((items.flatMap (ExpandTable.inexactActs none)).map actionJson).toArray)]
 
 /-- `{"m":"c17","op":"expand","lines":[..],"pins":[[n,v]..],"toplevel":s|null,"force":b,"expandVersions":b,
 "addExactBlock":b,"recurse":b,"spv":[[n,v]..],"sv":[[n,v]..],"deps":[[n,v,null|[[n,v,opt]..]]..]}` →
